@@ -215,6 +215,13 @@ ErrSet == {"default", "ignore", "raise", "warnerr"}  \* np.errstate(all=...) of 
 \* whole-tensor operators (their docstrings act on the flattened tensor) are also given the input reshaped to a matrix
 WholeTensorOps == {"l2", "hard", "normsparse", "normalize"}
 ShapeSet == {<<>>, <<2, 2>>}
+\* call forms: every argument positional / by its published keyword; the home module or a re-export; the scalar, {0: p} and
+\* [p] spellings of a one-mode constraint; zeros written as -0.0 or as subnormals; an earlier failed call on the same array
+FormSet == {"pos", "kw"}
+EntrySet == {"home", "alias"}
+SpellSet == {"scalar", "dict", "list"}
+ValsSet == {"plain", "negzero", "subnormal"}
+PrevSet == {"none", "failed"}
 
 -----------------------------------------------------------------------------
 (* Constraint sets and objectives, on a rational point num/den.                                   *)
@@ -367,8 +374,8 @@ IdFrame(d) == [i \in 1..d |-> UnitV(d, i)]
 H2 == << <<1, 1>>, <<1, -1>> >>
 R2 == << <<3, 4>>, <<-4, 3>> >>
 Q3 == << <<1, 2, 2>>, <<2, 1, -2>>, <<2, -2, 1>> >>
-LeftFrames(d) == IF d = 2 THEN {IdFrame(2), H2, R2} ELSE {IdFrame(3), Q3}
-RightFrames(d) == IF d = 2 THEN UnitFrames(2) \cup {H2, R2} ELSE UnitFrames(3) \cup {Q3}
+LeftFrames(d) == IF d = 1 THEN {IdFrame(1)} ELSE IF d = 2 THEN {IdFrame(2), H2, R2} ELSE {IdFrame(3), Q3}
+RightFrames(d) == IF d = 1 THEN {IdFrame(1)} ELSE IF d = 2 THEN UnitFrames(2) \cup {H2, R2} ELSE UnitFrames(3) \cup {Q3}
 FrameSq(F) == Norm2(F[1])
 IsFrame(F, d) == /\ Len(F) = d
                  /\ \A a \in 1..d : Len(F[a]) = d /\ Norm2(F[a]) = FrameSq(F)
@@ -442,7 +449,7 @@ MatOK(mc) ==
          /\ pm = N * N * SumQ(AbsS(mc.c))
 
 SvtParams == {<<1, 2>>, <<1, 1>>, <<3, 1>>}
-Shapes2 == {<<2, 2>>, <<2, 3>>, <<3, 2>>, <<3, 3>>}
+Shapes2 == {<<2, 2>>, <<2, 3>>, <<3, 2>>, <<3, 3>>, <<1, 2>>, <<1, 3>>, <<2, 1>>, <<3, 1>>}    \* incl. a single row / column
 ValidMat(mc) == /\ <<mc.m, mc.n>> \in Shapes2
                 /\ mc.uf \in LeftFrames(mc.m) /\ mc.vf \in RightFrames(mc.n) /\ FramePairOK(mc.uf, mc.vf)
                 /\ mc.c \in Coefs(RankOf(mc), (-2)..2)
@@ -509,7 +516,7 @@ Init == \/ cfg \in {[op |-> "start", fam |-> f, n |-> n, head |-> h,
         \/ cfg \in {[op |-> "startm", mop |-> o[1], p |-> o[2], q |-> o[3], m |-> sh[1], n |-> sh[2], uf |-> uf, vf |-> vf]
                          : o \in {<<"svt", t[1], t[2]>> : t \in SvtParams} \cup {<<"procrustes", 0, 1>>},
                            sh \in Shapes2,
-                           uf \in UNION {LeftFrames(d) : d \in {2, 3}}, vf \in UNION {RightFrames(d) : d \in {2, 3}}}
+                           uf \in UNION {LeftFrames(d) : d \in {1, 2, 3}}, vf \in UNION {RightFrames(d) : d \in {1, 2, 3}}}
         \/ cfg \in {[op |-> "starta", n |-> n, head |-> h, t1 |-> t1, columnwise |-> TRUE, law |-> ScaleLaw("l1arr")]
                          : n \in 1..3, h \in (-Box)..Box, t1 \in ArrTSet}
 Next == \/ /\ cfg.op = "starta"
